@@ -29,6 +29,7 @@ type shape struct {
 	text        string
 	val         any
 	undecodable bool
+	cls         string // input class used in signatures; derived from val when empty (generated shapes set it)
 }
 
 const deep10 = `[[[[[[[[[[1]]]]]]]]]]`
@@ -75,6 +76,9 @@ var shapeByLabel = func() map[string]*shape {
 // class is the low-cardinality input class of a shape used in violation
 // signatures (one signature per defect site, not per spelling).
 func (s *shape) class() string {
+	if s.cls != "" {
+		return s.cls
+	}
 	if s.undecodable {
 		return "number-unrepresentable"
 	}
@@ -120,6 +124,7 @@ type expect struct {
 	allowErr bool
 	allowed  []any
 	any      bool
+	match    func(got any) bool // optional: further acceptable values (sets too large to list)
 }
 
 func documented(vals ...any) expect { return expect{kind: "documented", allowed: vals} }
@@ -220,9 +225,7 @@ func expectFor(cat string, s *shape) expect {
 				return documented(x)
 			}
 		case string:
-			if tt, err := time.Parse(time.RFC3339, x); err == nil {
-				return documented(float64(tt.Unix()))
-			}
+			return timeStringExpect(x)
 		}
 	case "audience":
 		switch x := s.val.(type) {
@@ -252,8 +255,9 @@ func expectFor(cat string, s *shape) expect {
 		}
 	case "locale":
 		if str, ok := s.val.(string); ok {
-			if tag, err := language.Parse(str); err == nil && tag != language.Und {
-				return documented(tag.String())
+			if ti := tagInfoOf(str); ti.valid {
+				// the document's tag in any canonical spelling of the reference library
+				return expect{kind: "documented", match: func(got any) bool { g, ok := got.(string); return ok && ti.accept[g] }}
 			}
 		}
 	case "locales":
@@ -272,20 +276,37 @@ func expectFor(cat string, s *shape) expect {
 		default:
 			return otherForm(zero)
 		}
-		var good []any
+		var good []*tagInfo
 		clean := true
 		for _, p := range in {
-			if tag, err := language.Parse(p.(string)); err == nil && tag != language.Und {
-				good = append(good, tag.String())
+			if ti := tagInfoOf(p.(string)); ti.valid {
+				good = append(good, ti)
 			} else {
 				clean = false
 			}
 		}
+		// every defined tag of the document in document order (each in any canonical
+		// spelling of the reference library), nothing else
+		match := func(got any) bool {
+			if len(good) == 0 {
+				return got == nil
+			}
+			l, ok := got.([]any)
+			if !ok || len(l) != len(good) {
+				return false
+			}
+			for i, g := range l {
+				if gs, ok := g.(string); !ok || !good[i].accept[gs] {
+					return false
+				}
+			}
+			return true
+		}
 		if clean {
-			return documented(listOrNil(good))
+			return expect{kind: "documented", match: match}
 		}
 		// undefined tags are dropped (documented) - or the whole list refused
-		return expect{kind: "documented", allowErr: true, allowed: []any{listOrNil(good), nil}}
+		return expect{kind: "documented", allowErr: true, allowed: []any{nil}, match: match}
 	case "actor":
 		if m, ok := s.val.(map[string]any); ok {
 			if strings.HasPrefix(s.label, "actor-bad") {
@@ -328,6 +349,9 @@ func listOrNilMap(m map[string]any) any {
 
 func (e expect) accepts(v any) bool {
 	if e.any {
+		return true
+	}
+	if e.match != nil && e.match(v) {
 		return true
 	}
 	for _, a := range e.allowed {
@@ -401,6 +425,7 @@ func (d *decType) skip(v engine.Vec) bool {
 type decResult struct {
 	rule, outcome, sig, detail string
 	panicked                   bool
+	ptr                        reflect.Value // the decoded value (set when decoding succeeded and was judged correct)
 }
 
 // judge decodes a document that sets the members in `members` (index into
@@ -522,7 +547,7 @@ func (d *decType) judge(members []int, shp []*shape) decResult {
 				detail: fmt.Sprintf("json.Unmarshal(%s, *%s): custom map has key %q that is not in the document", text, tn, k)}
 		}
 	}
-	return decResult{rule: rule, outcome: outcome}
+	return decResult{rule: rule, outcome: outcome, ptr: ptr}
 }
 
 func (d *decType) run(v engine.Vec) engine.Result {
@@ -616,39 +641,49 @@ func leafSpace() engine.Space {
 }
 
 func runLeaf(sp engine.Space, v engine.Vec) engine.Result {
-	t := leafTypes[v[0]]
-	s := shapeByLabel[sp[1].Vals[v[1]]]
+	r, _ := judgeLeaf(leafTypes[v[0]], shapeByLabel[sp[1].Vals[v[1]]])
+	return r
+}
+
+// judgeLeaf decodes one shape into a leaf type on its own; ptr is the decoded
+// value when decoding succeeded and was judged correct.
+func judgeLeaf(t reflect.Type, s *shape) (res engine.Result, ptr reflect.Value) {
 	cat := category(t)
 	if t == tLocale.Elem() {
 		cat = "locale"
 	}
 	e := expectFor(cat, s)
 	rule := cat + ":" + e.kind
-	ptr := reflect.New(t)
+	ptr = reflect.New(t)
+	none := reflect.Value{}
 	var err error
 	if p := engine.Safe(func() { err = json.Unmarshal([]byte(s.text), ptr.Interface()) }); p != "" {
-		return engine.Bad(rule, "panic", "C12/panic/decode/"+cat, fmt.Sprintf("json.Unmarshal(%s, *%s) panics: %s", s.text, t.Name(), p))
+		return engine.Bad(rule, "panic", "C12/panic/decode/"+cat, fmt.Sprintf("json.Unmarshal(%s, *%s) panics: %s", s.text, t.Name(), p)), none
 	}
 	if err != nil {
 		if e.allowErr {
-			return engine.OK(rule, "error")
+			return engine.OK(rule, "error"), none
 		}
-		return engine.Bad(rule, "error", "C12/documented-form-rejected/"+cat+"/"+s.class(), fmt.Sprintf("json.Unmarshal(%s, *%s) = %v", s.text, t.Name(), err))
+		return engine.Bad(rule, "error", "C12/documented-form-rejected/"+cat+"/"+s.class(), fmt.Sprintf("json.Unmarshal(%s, *%s) = %v", s.text, t.Name(), err)), none
 	}
-	val := ptr.Elem()
-	if cat == "locale" {
-		val = ptr
-	}
-	got := refVal(val, cat)
+	got := leafRefVal(ptr, cat)
 	if !e.accepts(got) {
 		what := "C12/decode-value-not-in-document/"
 		if e.kind == "documented" {
 			what = "C12/documented-form-misread/"
 		}
-		return engine.Bad(rule, "wrong-value", what+cat+"/"+s.class(), fmt.Sprintf("json.Unmarshal(%s, *%s) = %v, acceptable: %v", s.text, t.Name(), got, e.allowed))
+		return engine.Bad(rule, "wrong-value", what+cat+"/"+s.class(), fmt.Sprintf("json.Unmarshal(%s, *%s) = %v, acceptable: %v", s.text, t.Name(), got, e.allowed)), none
 	}
 	if eq(got, zeroOf(cat)) {
-		return engine.OK(rule, "zero")
+		return engine.OK(rule, "zero"), ptr
 	}
-	return engine.OK(rule, "value")
+	return engine.OK(rule, "value"), ptr
+}
+
+// leafRefVal: reference form of a decoded leaf value (ptr = pointer to it).
+func leafRefVal(ptr reflect.Value, cat string) any {
+	if cat == "locale" {
+		return refVal(ptr, cat)
+	}
+	return refVal(ptr.Elem(), cat)
 }
